@@ -16,6 +16,9 @@ overrides of one object.
 """
 
 import gc
+import itertools
+import os
+import pathlib
 import hashlib
 import random
 import sys
@@ -93,6 +96,8 @@ scenario Bg():
             probe.ev("Bg.compose")
             wait
 scenario Main():
+    precondition: probe.cond("mainpre")
+    invariant: probe.cond("maininv")
     setup:
         probe.ev("Main.setup")
         ego = new Thing at (0, 0, 0), with name "A1", with behavior Idle()
@@ -492,6 +497,98 @@ def override_check(prog, ref):
     return None
 
 
+# -- operation histories in fresh processes --------------------------------------------------------
+# "afterwards compiling, sampling and simulating behave exactly as in a fresh process": every
+# sequence of operations {C = compile + generate, S = simulate the last scene, F = simulate with a
+# failing top-level precondition} up to a length bound, each sequence in its own fresh process;
+# every C / S result must equal the result of the same operation performed first in a fresh process.
+
+HISTORY_PROGRAM = '''
+import builtins
+scenario Sub():
+    setup:
+        other = new Object at (5, 0, 0), with foo (30 if initial scenario else 40), with allowCollisions True
+        record initial other.foo as otherfoo
+    compose:
+        wait
+scenario Main():
+    precondition: builtins.VERIF_MAINPRE[0]
+    setup:
+        if initial scenario:
+            ego = new Object at (0, 0, 0), with foo 1, with allowCollisions True
+        else:
+            ego = new Object at (0, 0, 0), with foo 2, with allowCollisions True
+        record initial ego.foo as egofoo
+    compose:
+        do Sub()
+        wait
+'''
+
+HISTORY_CHILD = r"""
+import sys, json, random, builtins
+sys.path.insert(0, %r)
+import numpy
+import scenic
+from scenic.core.simulators import DummySimulator
+from checks import c14
+builtins.VERIF_MAINPRE = [True]
+out = []
+scene = None
+for op in sys.argv[1]:
+    random.seed(5); numpy.random.seed(5)
+    try:
+        if op == "C":
+            sc = scenic.scenarioFromString(c14.HISTORY_PROGRAM, scenario="Main")
+            scene, its = sc.generate(maxIterations=5)
+            out.append(["C", [[type(o).__name__, o.foo, list(o.position)] for o in scene.objects], its])
+        else:
+            builtins.VERIF_MAINPRE[0] = op != "F"
+            try:
+                sim = DummySimulator().simulate(scene, maxSteps=6, maxIterations=1, raiseGuardViolations=True)
+            finally:
+                builtins.VERIF_MAINPRE[0] = True
+            res = sim.result
+            out.append([op, len(res.trajectory), str(res.terminationType), sorted((k, repr(v)) for k, v in res.records.items())])
+    except BaseException as e:
+        out.append([op, "EXC", type(e).__name__, str(e)[:120]])
+print("DUMP" + json.dumps(out))
+"""
+
+
+def history_sequences(tier):
+    n = 3 if tier == "quick" else 5
+    seqs = []
+    for k in range(1, n + 1):
+        for tail in itertools.product("CSF", repeat=k - 1):
+            seqs.append("C" + "".join(tail))
+    return seqs
+
+
+def run_history(seq):
+    import json as _json
+    import subprocess
+
+    env = dict(os.environ, PYTHONHASHSEED="0")
+    r = subprocess.run([sys.executable, "-c", HISTORY_CHILD % str(pathlib.Path(__file__).resolve().parent.parent), seq], capture_output=True, text=True, env=env, timeout=900)
+    for line in r.stdout.splitlines():
+        if line.startswith("DUMP"):
+            return seq, _json.loads(line[4:])
+    return seq, {"error": r.stderr[-600:]}
+
+
+def judge_history(seq, dump, expect):
+    """expect: {"C": ..., "S": ..., "F": ...} from the shortest histories.  Returns (sig, text) or None."""
+    for i, rec in enumerate(dump):
+        op = rec[0]
+        if rec != expect[op]:
+            return (
+                f"history-dependence:{'compile' if op == 'C' else 'simulate'}",
+                f"fresh process, operations {seq!r} (C = compile + generate, S = simulate, F = simulate with the top-level precondition false): "
+                f"operation #{i} ({op}) gave {rec}, the same operation performed first in a fresh process gives {expect[op]}",
+            )
+    return None
+
+
 def run(ctx):
     dyn.veneer_dirt(reset=True)
     items = []
@@ -522,6 +619,22 @@ def run(ctx):
             outcomes[k] = outcomes.get(k, 0) + v
         for sig, desc, case in r["violations"]:
             ctx.violation(sig, desc, case)
+    # operation histories in fresh processes
+    seqs = history_sequences(ctx.tier)
+    dumps = dict(ctx.pmap(run_history, seqs, chunksize=1))
+    for q, d in dumps.items():
+        if isinstance(d, dict):
+            raise HarnessError(f"history child {q} failed: {d['error']}")
+    expect = {"C": dumps["C"][0], "S": dumps["CS"][1], "F": dumps["CF"][1]}
+    if expect["S"][1] == "EXC" or expect["F"][1] != "EXC" or expect["C"][1][0][1] != 1:
+        raise HarnessError(f"history family: unexpected first-use results {expect}")
+    hist_bad = 0
+    for q in seqs:
+        v = judge_history(q, dumps[q], expect)
+        if v:
+            hist_bad += 1
+            ctx.violation(v[0], v[1] + "\n" + HISTORY_PROGRAM, {"pi": -1, "phase": "history", "seq": q, "i": -1, "kind": "", "tier": ctx.tier})
+    tot["runs"] += sum(len(q) for q in seqs)
     need = ["sim:create", "sim:step", "sim:getprops", "sim:exec", "sim:destroy", "action.applyTo", "record"]
     missing = [k for k in need if k not in site_kinds]
     if missing or not any(k.startswith("cond:") for k in site_kinds):
@@ -534,18 +647,28 @@ def run(ctx):
         rule="for each program every visit of every fault site recorded in the fault-free compile / generate / simulate history x every "
         "exception kind (user Exception, RejectionException, RejectSimulationException, GuardViolation) is a crash point; after each, the "
         "veneer globals, Scenic module table and scene snapshot are compared with the pristine ones and later uses (simulate; generate / "
-        "recompile / compile another program, all of them in the thorough tier) must reproduce the pre-fault reference; "
+        "recompile / compile another program, all of them in the thorough tier) must reproduce the pre-fault reference; in addition every "
+        "sequence of <= 3 (thorough 5) operations {compile + generate, simulate, simulate with a failing top-level precondition} runs in its own "
+        "fresh process and each operation's result must equal that of the same operation performed first in a fresh process; "
         "distinct_nontrivial = distinct kinds of fault site exercised",
         samples=[{"program": PROGRAMS[0]["name"], "first_sites": refs[0]["sim_sites"][:12]}, {"program": PROGRAMS[1]["name"], "first_sites": refs[1]["sim_sites"][:12]}],
         crash_points=tot["faults"],
         fault_site_kinds=site_kinds,
         outcomes_of_faulted_runs=outcomes,
+        operation_histories_in_fresh_processes={"sequences": len(seqs), "max_length": max(len(q) for q in seqs), "alphabet": "C compile+generate, S simulate, F simulate with failing top-level precondition"},
         bounds={"programs": [p["name"] for p in PROGRAMS], "fault_depth": 2 if ctx.tier == "thorough" else 1, "second_fault_points": "every 4th visit of the history, kind rotating" if ctx.tier == "thorough" else "none"},
     )
     ctx.assumptions.append("the reference of each program is computed in the clean parent process and again in every worker before its first fault")
 
 
 def replay(ctx, case):
+    if case.get("phase") == "history":
+        dumps = dict(run_history(q) for q in ("C", "CS", "CF", case["seq"]))
+        expect = {"C": dumps["C"][0], "S": dumps["CS"][1], "F": dumps["CF"][1]}
+        v = judge_history(case["seq"], dumps[case["seq"]], expect)
+        if v:
+            ctx.violation(v[0], v[1], case)
+        return
     pi = case["pi"]
     prog = PROGRAMS[pi]
     dyn.veneer_dirt(reset=True)
